@@ -107,7 +107,7 @@ var TemplateNames = []string{
 	"leading-lookahead", "bumpalong-loop", "loop-then-x", "loop-ending-loop-body", "alt-shared-prefix",
 	"alt-shared-set-prefix", "atomic-alternation", "nested-atomic", "lookbehind-loop", "conditional-loop",
 	"wide-literal", "negated-first-set", "counted-group-loop", "lazy-loop-then-x", "alt-with-empty",
-	"start-anchor-G", "backref-after-loop", "lookaround-conditional",
+	"start-anchor-G", "backref-after-loop", "lookaround-conditional", "alt-counted-set-prefix", "loop-then-optional-group", "group-loop-overlapping-head",
 }
 
 // Template builds template number k with random leaves.
@@ -198,6 +198,48 @@ func (t *T) Template(k int) *Node {
 		return Cat(t.tail(), Anch(`\G`), t.tail())
 	case "backref-after-loop":
 		return Cat(t.Cap(t.loop(t.unit())), t.tail(), &Node{K: KBackref, Ref: 1})
+	case "alt-counted-set-prefix":
+		// branches that start with the same set / not-one under different counts: {n} vs {n,m} vs {n,}
+		var head *Node
+		if t.R.Intn(3) == 0 {
+			head = Cls(true, CR(t.l()))
+		} else {
+			head = t.set()
+		}
+		n := 1 + t.R.Intn(2)
+		counts := [][2]int{{n, n}, {n, n + 1 + t.R.Intn(2)}, {n, -1}, {n, n}, {n + 1, n + 1}}
+		t.R.Shuffle(len(counts), func(i, j int) { counts[i], counts[j] = counts[j], counts[i] })
+		alt := Or()
+		for i := 0; i < 2+t.R.Intn(2); i++ {
+			alt.Kids = append(alt.Kids, Cat(Rep(head.Clone(), counts[i][0], counts[i][1]), S(t.word(1))))
+		}
+		if t.R.Intn(2) == 0 {
+			return Cat(t.Cap(alt), t.tail())
+		}
+		return Cat(NC(alt), t.tail())
+	case "loop-then-optional-group":
+		// a loop followed by a group that may match nothing, then something overlapping the loop
+		u := t.unit()
+		g := NC(Cat(t.unit(), t.unit()))
+		opt := []*Node{Rep(g, 0, -1), Rep(g, 0, 1), RepL(g, 0, -1), Rep(g, 0, 2)}[t.R.Intn(4)]
+		return Cat(t.tail(), t.loop(u.Clone()), opt, []*Node{u.Clone(), t.unit(), L(t.l())}[t.R.Intn(3)], t.tail())
+	case "group-loop-overlapping-head":
+		// a repeated group whose body ends in greedy loop(s) and whose head overlaps them: the loop
+		// must give characters back to the next iteration
+		a, b := t.l(), t.l()
+		head := []*Node{Cls(false, CR(a), CR(b)), L(a), Dot(), Esc("w")}[t.R.Intn(4)]
+		body := Cat(head, Rep(L(a), 0, -1))
+		if t.R.Intn(2) == 0 {
+			body.Kids = append(body.Kids, Rep(L(b), 0, []int{-1, 1, 2}[t.R.Intn(3)]))
+		}
+		var grp *Node
+		if t.R.Intn(3) == 0 {
+			grp = t.Cap(body)
+		} else {
+			grp = NC(body)
+		}
+		q := [][2]int{{2, 2}, {2, 3}, {1, 2}, {2, -1}, {3, 3}, {1, -1}}[t.R.Intn(6)]
+		return Cat(t.tail(), Rep(grp, q[0], q[1]), []*Node{L(t.l()), S(t.word(2)), Anch("$"), &Node{K: KEmpty}}[t.R.Intn(4)])
 	case "lookaround-conditional":
 		return Cat(&Node{K: KCondExpr, Kids: []*Node{Look(t.R.Intn(2) == 0, t.R.Intn(2) == 0, Cat(t.unit(), t.loop(t.unit()))), Cat(t.unit(), t.loop(t.unit())), Cat(t.loop(t.unit()), t.unit())}}, t.tail())
 	}
